@@ -1,4 +1,4 @@
-import MiniVecProof.Proofs.MemOps
+import MiniVecProof.Proofs.MemCap
 /-
   C01 — operation sequences behave exactly like std `Vec` (PARTIAL: proved for the operations in
   `POp`; the remaining operations of the property are tied to the code and to `Vec` by the
@@ -19,20 +19,47 @@ open MV MV.Gen MV.GM VM
 inductive POp
   | push (e : Elem)
   | pop
+  | truncate (n : Nat)
+  | clear
+  | reserve (n : Nat)
+  | reserve_exact (n : Nat)
+  | shrink_to (n : Nat)
+  | shrink_to_fit
   deriving Repr
 
 /-- `Vec` semantics on plain lists: new contents and the returned value -/
 def POp.spec : POp → List Elem → List Elem × Option Elem
   | .push e, es => (es ++ [e], none)
   | .pop, es => (es.dropLast, es.getLast?)
+  | .truncate n, es => (es.take n, none)
+  | .clear, _ => ([], none)
+  | .reserve _, es | .reserve_exact _, es | .shrink_to _, es | .shrink_to_fit, es => (es, none)
 
 /-- the model (hand-written pointer code on top of the regenerated decision programs) -/
 def POp.run (X : Ctx) : POp → VM (Option Elem)
   | .push e => do Vec.push X e; pure none
   | .pop => Vec.pop X
+  | .truncate n => do Vec.truncate X n; pure none
+  | .clear => do Vec.clear X; pure none
+  | .reserve n => do Vec.reserve X n; pure none
+  | .reserve_exact n => do Vec.reserve_exact X n; pure none
+  | .shrink_to n => do Vec.shrink_to X n; pure none
+  | .shrink_to_fit => do Vec.shrink_to_fit X; pure none
 
 /-- one operation refines its specification, or stops benignly leaving the handle as it was -/
-theorem POp.refines (X : Ctx) (op : POp) (s : St) (es : List Elem) (h : Abs X s.v es) :
+theorem capMem_refines (X : Ctx) (s : St) (es : List Elem) (x : VM Unit) (habs0 : Abs X s.v es)
+    (h : CapMem X s es (x s)) :
+    (∃ s', (do x; pure (none : Option Elem) : VM (Option Elem)) s = (.ok none, s') ∧ Abs X s'.v es) ∨
+    (∃ p s', (do x; pure (none : Option Elem) : VM (Option Elem)) s = (.error p, s') ∧ Panic.benign p = true ∧ s'.v = s.v) := by
+  simp only [VM.bind_run]
+  generalize x s = out at h
+  cases h with
+  | same => exact .inl ⟨s, rfl, habs0⟩
+  | stopped p s' hv hp _ => exact .inr ⟨p, s', rfl, hp, hv⟩
+  | grown s' habs _ _ => exact .inl ⟨s', rfl, habs⟩
+
+/-- (`hq`: no user destructor panics — destructor panics are the subject of C04) -/
+theorem POp.refines (X : Ctx) (hq : ∀ k, X.o.panicAt k = false) (op : POp) (s : St) (es : List Elem) (h : Abs X s.v es) :
     (∃ s', op.run X s = (.ok (op.spec es).2, s') ∧ Abs X s'.v (op.spec es).1) ∨
     (∃ p s', op.run X s = (.error p, s') ∧ Panic.benign p = true ∧ s'.v = s.v) := by
   cases op with
@@ -54,6 +81,16 @@ theorem POp.refines (X : Ctx) (op : POp) (s : St) (es : List Elem) (h : Abs X s.
       refine .inl ⟨{ s with v := v' }, ?_, ?_⟩
       · rw [hr, he']; simp
       · rw [he']; simpa using habs
+  | truncate n =>
+    obtain ⟨v', hr, habs, _⟩ := truncate_spec X hq s es n h
+    exact .inl ⟨_, by simp only [POp.run, VM.bind_run, hr]; rfl, habs⟩
+  | clear =>
+    obtain ⟨v', hr, habs, _⟩ := clear_spec X hq s es h
+    exact .inl ⟨_, by simp only [POp.run, VM.bind_run, hr]; rfl, habs⟩
+  | reserve n => exact capMem_refines X s es _ h (reserve_mem X s es n h)
+  | reserve_exact n => exact capMem_refines X s es _ h (reserve_exact_mem X s es n h)
+  | shrink_to n => exact capMem_refines X s es _ h (shrink_to_mem X s es n h)
+  | shrink_to_fit => exact capMem_refines X s es _ h (shrink_to_fit_mem X s es h)
 
 /-- run a sequence; stop at the first operation that does not return -/
 def runOps (X : Ctx) : List POp → St → List (Option Elem) → (Except Panic (List (Option Elem))) × St
@@ -67,14 +104,14 @@ def specOuts : List POp → List Elem → List (Option Elem) → List (Option El
   | [], es, outs => (outs, es)
   | op :: rest, es, outs => specOuts rest (op.spec es).1 (outs ++ [(op.spec es).2])
 
-theorem C01_refines_vec_partial (X : Ctx) (ops : List POp) (s : St) (es : List Elem) (outs : List (Option Elem))
+theorem C01_refines_vec_partial (X : Ctx) (hq : ∀ k, X.o.panicAt k = false) (ops : List POp) (s : St) (es : List Elem) (outs : List (Option Elem))
     (h : Abs X s.v es) :
     (∃ s', runOps X ops s outs = (.ok (specOuts ops es outs).1, s') ∧ Abs X s'.v (specOuts ops es outs).2) ∨
     (∃ p s', runOps X ops s outs = (.error p, s') ∧ Panic.benign p = true ∧ ∃ es', Abs X s'.v es') := by
   induction ops generalizing s es outs with
   | nil => exact .inl ⟨s, rfl, h⟩
   | cons op rest ih =>
-    rcases POp.refines X op s es h with ⟨s', hr, habs⟩ | ⟨p, s', hr, hp, hv⟩
+    rcases POp.refines X hq op s es h with ⟨s', hr, habs⟩ | ⟨p, s', hr, hp, hv⟩
     · simp only [runOps, hr, specOuts]
       exact ih s' _ _ habs
     · simp only [runOps, hr]
